@@ -87,29 +87,29 @@ func (t *Handler) Handle(cx *layer4.Connection, next layer4.Handler) error {
 	// (it also needs a pointer to the pipe, so it can
 	// close the pipe when the connection closes,
 	// otherwise we'll leak the goroutine, yikes!)
-	nextc := *cx
-	nextc.Conn = nextConn{
+	// (both connections read through cx, so any bytes cx
+	// has prefetched are seen exactly once by each of them)
+	nextc := cx.Wrap(nextConn{
 		Conn:   cx,
 		Reader: io.TeeReader(cx, pw),
 		pipe:   pw,
-	}
+	})
 
 	// this is the conn we pass to the branch
-	branchc := *cx
-	branchc.Conn = teeConn{
+	branchc := cx.Wrap(teeConn{
 		Conn:   cx,
 		Reader: pr,
-	}
+	})
 
 	// run the branch concurrently
 	go func() {
-		err := t.compiledChain.Handle(&branchc)
+		err := t.compiledChain.Handle(branchc)
 		if err != nil {
 			t.logger.Error("handling connection in branch", zap.String("remote", cx.RemoteAddr().String()), zap.Error(err))
 		}
 	}()
 
-	return next.Handle(&nextc)
+	return next.Handle(nextc)
 }
 
 // UnmarshalCaddyfile sets up the Handler from Caddyfile tokens. Syntax:
